@@ -238,7 +238,22 @@ pub fn run(tier: &str) -> i32 {
         let p = &progs[*i];
         match generate(&p.src, &cfg_for(p, *r)) {
             Outcome::Ok(t) => {
-                let v = check_model(p, *r, &t);
+                let mut v = check_model(p, *r, &t);
+                // field lists do not depend on the derive switches: the same check under other option sets
+                // (every 3rd program in quick; all structs that are shader IO and host-shareable at once)
+                if thorough || *i % 3 == 0 || p.key.contains("io-host|") {
+                    let has_rt = Ty::Struct(p.root.clone()).has_rt_array(&p.env);
+                    let mut alts = vec![Config { encase: true, bytemuck_vertex: true, serde: true, repr: *r, ..Config::default() }];
+                    if !has_rt {
+                        alts.push(Config { encase: true, bytemuck_host: true, repr: *r, ..Config::default() });
+                    }
+                    for alt in alts {
+                        match generate(&p.src, &alt) {
+                            Outcome::Ok(t2) => v.extend(check_model(p, *r, &t2).into_iter().map(|x| format!("[{}] {x}", alt.key()))),
+                            other => v.push(format!("[{}] generation fails: {}", alt.key(), other.class().chars().take(80).collect::<String>())),
+                        }
+                    }
+                }
                 (Some(t), v)
             }
             other => {
@@ -286,8 +301,14 @@ pub fn run(tier: &str) -> i32 {
         let detail = |obs: String| json!({"wgsl": p.src, "config": cfg_for(p, r).key(), "observed": obs});
         match &cr.check {
             Verdict::Accepted => {}
-            Verdict::Rejected(_) => {
-                rep.filtered("compiled subset: module rejected by rustc (C01's domain)");
+            Verdict::Rejected(e) => {
+                // the nalgebra stand-in has no encase impls (a limit of the stand-in, not of the module); anything else that
+                // keeps a module of plain structs from compiling is a field whose type does not denote what it should
+                if e.iter().all(|x| x.0 == "E0277" && (x.1.contains("SMatrix") || x.1.contains("SVector"))) {
+                    rep.filtered("compiled subset: nalgebra stand-in types have no encase implementation");
+                } else {
+                    rep.violation(format!("{}|{r:?}", p.key), format!("exec: the emitted structs do not compile: {} {}", e[0].0, e[0].1.chars().take(90).collect::<String>()), json!({"wgsl": p.src, "config": cfg_for(p, r).key(), "observed": format!("{e:?}")}));
+                }
                 continue;
             }
             Verdict::ProbeMismatch(e) => {
